@@ -292,6 +292,13 @@ FIXED_CASES = [
     ("{{a}}.get({{k}}, None)", "{{a}}.get({{k}})", "y = d.get(k, None).x[0]\n", "y = d.get(k).x[0]\n"),
     ("len({{a}}) == 0", "not {{a}}", "y = len(v) == 0 and w\n", "y = not v and w\n"),
     ("len({{a}}) == 0", "not {{a}}", "y = -(len(v) == 0)\n", "y = -(not v)\n"),
+    # bound string literals keep their value whatever prefix and escapes they are written with
+    ("foo({{a}}, {{b}})", "bar({{b}}, {{a}})", 'y = foo(r"\\bfoo\\b", s)\n', 'y = bar(s, r"\\bfoo\\b")\n'),
+    ("foo({{a}}, {{b}})", "bar({{b}}, {{a}})", 'y = foo("a\\0b\\x41", b"\\x00z")\n', 'y = bar(b"\\x00z", "a\\0b\\x41")\n'),
+    ("foo({{a}}, {{b}})", "bar({{b}}, {{a}})", "y = foo(R'\\d+\\.', rb'\\d')\n", "y = bar(rb'\\d', R'\\d+\\.')\n"),
+    ("if {{c}}:\n    return True\nreturn False", "return {{c}}", 'def f(s):\n    if re.match(r"\\bfoo\\b", s):\n        return True\n    return False\n',
+     'def f(s):\n    return re.match(r"\\bfoo\\b", s)\n'),
+    ("foo({{a}})", "bar({{a}})", "y = foo('''a\\\nb''')\n", "y = bar('''a\\\nb''')\n"),
 ]
 
 
